@@ -263,11 +263,19 @@ func handshake(p *Program, fn *ssa.Function, mc *modelCalls, ap *ssa.Call) strin
 func checkCEntryStates(p *Program, r *Report, fn *ssa.Function, mc *modelCalls, rule string) {
 	key := FuncKey(fn)
 	runs := mc.calls["Run"]
-	if len(runs) != 1 {
+	if len(runs) == 0 || len(runs) > 4 {
 		r.Undecided(rule, key+":run-count", p.Pos(fn.Pos()), fmt.Sprintf("%d Run calls", len(runs)))
 		return
 	}
-	run := runs[0]
+	// no path runs the model twice
+	for _, a := range runs {
+		for _, b := range runs {
+			if a != b && canReach(a, b) {
+				r.Fail(rule, key+":run-twice", p.Pos(b.Pos()), "a path through the entry point calls Run twice")
+				return
+			}
+		}
+	}
 	var initFlag, statesPtr *ssa.Parameter
 	for _, prm := range fn.Params {
 		if prm.Name() == "initStates" {
@@ -290,66 +298,124 @@ func checkCEntryStates(p *Program, r *Report, fn *ssa.Function, mc *modelCalls, 
 		}
 		return false, false
 	}
+	isCArrayCtor := func(c *ssa.Call) bool {
+		cn := callName(c.Common())
+		return strings.HasPrefix(cn, "New") && strings.HasSuffix(cn, "CArray") && len(c.Common().Args) > 0
+	}
+	// wrapParam: f is a helper all of whose results wrap (New…CArray) a pointer derived from its j-th parameter
+	wrapParam := func(f *ssa.Function) int {
+		if f == nil || f.Blocks == nil || !InModule(f) {
+			return -1
+		}
+		j := -1
+		for _, ret := range returnsOf(f) {
+			if len(ret.Results) != 1 {
+				return -1
+			}
+			for _, o := range origins(ret.Results[0]) {
+				c, ok := stripConv(o).(*ssa.Call)
+				if !ok || !isCArrayCtor(c) {
+					return -1
+				}
+				hit := -1
+				for i, prm := range f.Params {
+					if dependsOn(c.Common().Args[0], func(x ssa.Value) bool { return x == ssa.Value(prm) }, map[ssa.Value]bool{}) {
+						hit = i
+					}
+				}
+				if hit < 0 || j >= 0 && j != hit {
+					return -1
+				}
+				j = hit
+			}
+		}
+		return j
+	}
 	fromStatesBuf := func(v ssa.Value) bool {
 		c, ok := stripConv(v).(*ssa.Call)
 		if !ok {
 			return false
 		}
-		cn := callName(c.Common())
-		if !(strings.HasPrefix(cn, "New") && strings.HasSuffix(cn, "CArray")) {
+		ptr := ssa.Value(nil)
+		if isCArrayCtor(c) {
+			ptr = c.Common().Args[0]
+		} else if j := wrapParam(c.Common().StaticCallee()); j >= 0 && j < len(c.Common().Args) {
+			ptr = c.Common().Args[j]
+		}
+		if ptr == nil {
 			return false
 		}
-		return dependsOn(c.Common().Args[0], func(x ssa.Value) bool { return x == ssa.Value(statesPtr) }, map[ssa.Value]bool{})
+		return dependsOn(ptr, func(x ssa.Value) bool { return x == ssa.Value(statesPtr) }, map[ssa.Value]bool{})
 	}
-	// states argument of Run
-	sArg := run.Common().Args[1]
+	// states argument of each Run
 	okStates := true
 	nInit, nBuf := 0, 0
-	var walk func(v ssa.Value, seen map[ssa.Value]bool)
-	walk = func(v ssa.Value, seen map[ssa.Value]bool) {
-		if seen[v] {
-			return
+	var initRun *ssa.Call
+	for _, run := range runs {
+		nInitBefore := nInit
+		sArg := run.Common().Args[1]
+		var walk func(v ssa.Value, seen map[ssa.Value]bool)
+		walk = func(v ssa.Value, seen map[ssa.Value]bool) {
+			if seen[v] {
+				return
+			}
+			seen[v] = true
+			v2 := stripConv(v)
+			switch x := v2.(type) {
+			case *ssa.Phi:
+				for _, e := range x.Edges {
+					walk(e, seen)
+				}
+			case *ssa.Call:
+				if x.Common().IsInvoke() && x.Common().Method.Name() == "InitialiseStates" && sameModel(x.Common().Value, mc.model) {
+					nInit++
+					val, known := guardOf(x.Block())
+					if !known {
+						val, known = guardOf(run.Block())
+					}
+					if !known || !val {
+						okStates = false
+						r.Fail(rule, key+":states:init-unguarded", p.Pos(x.Pos()), "InitialiseStates result reaches Run on a path not guarded by initStates==true")
+					}
+					return
+				}
+				if fromStatesBuf(x) {
+					nBuf++
+					val, known := guardOf(x.Block())
+					if !known {
+						val, known = guardOf(run.Block())
+					}
+					if !known || val {
+						okStates = false
+						r.Fail(rule, key+":states:buffer-unguarded", p.Pos(x.Pos()), "the caller's states buffer reaches Run on a path not guarded by initStates==false")
+					}
+					return
+				}
+				okStates = false
+				r.Fail(rule, key+":states:origin", p.Pos(x.Pos()), "states passed to Run have an unexpected origin: "+callName(x.Common()))
+			default:
+				for _, o := range origins(v2) {
+					if o != nil && o != v2 {
+						walk(o, seen)
+						continue
+					}
+					if o == nil {
+						okStates = false
+						r.Fail(rule, key+":states:nil", p.Pos(run.Pos()), "states passed to Run may be nil")
+					}
+				}
+			}
 		}
-		seen[v] = true
-		v2 := stripConv(v)
-		switch x := v2.(type) {
-		case *ssa.Phi:
-			for _, e := range x.Edges {
-				walk(e, seen)
-			}
-		case *ssa.Call:
-			if x.Common().IsInvoke() && x.Common().Method.Name() == "InitialiseStates" && sameModel(x.Common().Value, mc.model) {
-				nInit++
-				if val, known := guardOf(x.Block()); !known || !val {
-					okStates = false
-					r.Fail(rule, key+":states:init-unguarded", p.Pos(x.Pos()), "InitialiseStates result reaches Run on a path not guarded by initStates==true")
-				}
-				return
-			}
-			if fromStatesBuf(x) {
-				nBuf++
-				if val, known := guardOf(x.Block()); !known || val {
-					okStates = false
-					r.Fail(rule, key+":states:buffer-unguarded", p.Pos(x.Pos()), "the caller's states buffer reaches Run on a path not guarded by initStates==false")
-				}
-				return
-			}
-			okStates = false
-			r.Fail(rule, key+":states:origin", p.Pos(x.Pos()), "states passed to Run have an unexpected origin: "+callName(x.Common()))
-		default:
-			for _, o := range origins(v2) {
-				if o != nil && o != v2 {
-					walk(o, seen)
-					continue
-				}
-				if o == nil {
-					okStates = false
-					r.Fail(rule, key+":states:nil", p.Pos(run.Pos()), "states passed to Run may be nil")
-				}
-			}
+		walk(sArg, map[ssa.Value]bool{})
+		if nInit > nInitBefore {
+			initRun = run
 		}
 	}
-	walk(sArg, map[ssa.Value]bool{})
+	run := runs[0]
+	if initRun != nil {
+		run = initRun
+	}
+	sArg := run.Common().Args[1]
 	if nInit == 0 || nBuf == 0 {
 		okStates = false
 		r.Fail(rule, key+":states:branches", p.Pos(run.Pos()), fmt.Sprintf("Run must receive InitialiseStates' result when initStates and the caller's buffer otherwise (found init:%d buffer:%d)", nInit, nBuf))
